@@ -1,28 +1,32 @@
 #!/bin/bash
 # usage: tools/killmatrix.sh <outdir> [mutant names...]     (default: all of /verif/seeded)
-# Runs every quick check against every seeded change on a SCRATCH COPY of the repository (so /repo,
-# evidence/ and replays/ are untouched and this can run in the background).  Writes <outdir>/matrix.txt.
+# Runs every quick check against every seeded change on a SCRATCH COPY of the repository and a SNAPSHOT of
+# /verif (so /repo, evidence/, replays/ are untouched and later edits do not disturb the run; can run in
+# the background).  Writes <outdir>/matrix.txt and one log per (mutant, check).
 set -u
 out="$1"; shift
 names="${*:-$(ls /verif/seeded)}"
-rm -rf "$out"; mkdir -p "$out"
+rm -rf "$out"; mkdir -p "$out/logs"
 git clone -q /repo "$out/repo"
-mkdir -p "$out/harness" && cp -r /verif/harness/src /verif/harness/Cargo.toml /verif/harness/Cargo.lock /verif/harness/.cargo "$out/harness/"
-sed -i "s#/repo/simple-dns#$out/repo/simple-dns#; s#/repo/simple-mdns#$out/repo/simple-mdns#" "$out/harness/Cargo.toml"
-export VERIF_HARNESS="$out/harness" VERIF_OUT="$out/out"
+rsync -a --exclude .git --exclude work --exclude replays --exclude evidence --exclude 'harness/target' /verif/ "$out/verif/"
+sed -i "s#/repo/simple-dns#$out/repo/simple-dns#; s#/repo/simple-mdns#$out/repo/simple-mdns#" "$out/verif/harness/Cargo.toml"
 ids="C01 C02 C03 C04 C05 C06 C07 C08 C09 C10 C11 C12 C13 C14 C15 C16 C17 C18 C19 C20"
 : > "$out/matrix.txt"
+# baseline on the unchanged copy: anything that fails here is noise, not a kill
+base=""
+for id in $ids; do "$out/verif/check" "$id" --tier quick > "$out/logs/base-$id.log" 2>&1 || base="$base $id"; done
+echo "BASELINE-FAILING:$base" >> "$out/matrix.txt"
 for m in $names; do
   [ -f "/verif/seeded/$m/patch.diff" ] || continue
   git -C "$out/repo" checkout -q -- . && git -C "$out/repo" apply "/verif/seeded/$m/patch.diff" || { echo "$m PATCH-FAILED" >> "$out/matrix.txt"; continue; }
   caught=""
   for id in $ids; do
-    /verif/check "$id" --tier quick > "$out/$m-$id.log" 2>&1; rc=$?
+    "$out/verif/check" "$id" --tier quick > "$out/logs/$m-$id.log" 2>&1; rc=$?
     [ "$rc" = 1 ] && caught="$caught $id"
     [ "$rc" = 2 ] && caught="$caught $id(tool-error)"
   done
   echo "$m:$caught" >> "$out/matrix.txt"
   git -C "$out/repo" checkout -q -- .
 done
-rm -rf "$out/repo" "$out/harness" "$out/out"
+rm -rf "$out/repo" "$out/verif"
 echo done >> "$out/matrix.txt"
